@@ -642,7 +642,107 @@ fn list_len(ch: &mut Choices<'_>) -> usize {
     }
 }
 
+/// `stride * raw / 2^shift` without overflow.
+fn frac(stride: u128, raw: u32, shift: u32) -> u128 {
+    if stride < 1 << 64 { (stride * raw as u128) >> shift } else { (stride >> shift) * raw as u128 }
+}
+
+/// A long list of (mostly) disjoint items laid out on a grid over the whole
+/// domain, with some wide items spanning several grid cells: what a structure
+/// that changes its search strategy with the number of ranges (or buckets them
+/// by leading bits) must still answer exactly.  Few draws: two per item.
+fn grid_case(is_int: bool, ch: &mut Choices<'_>, st: &mut Stats) -> CaseResult {
+    let n = *ch.pick(&[15usize, 16, 17, 31, 32, 33, 48, 63, 64, 65, 100, 128, 129, 200]);
+    let fam = if is_int { Fam::Int } else if ch.chance(3, 4) { Fam::V4 } else { Fam::V6 };
+    // the grid covers a drawn fraction of the domain (whole, top bits only, a small window)
+    let span_bits = match fam {
+        Fam::Int => *ch.pick(&[64u32, 63, 40, 16]),
+        Fam::V4 => *ch.pick(&[32u32, 31, 28, 20, 12]),
+        Fam::V6 => *ch.pick(&[128u32, 127, 100, 64, 33, 16]),
+    };
+    let span: u128 = if span_bits >= 128 { u128::MAX } else { (1u128 << span_bits) - 1 };
+    let span = span.min(fam.max());
+    let base: u128 = if span == fam.max() { 0 } else { (((ch.u64() as u128) << 64) | ch.u64() as u128) & (fam.max() - span) };
+    let stride = (span / n as u128).max(4);
+    let mut items: Vec<Item> = Vec::new();
+    let other = if fam == Fam::V4 { Fam::V6 } else { Fam::V4 };
+    for i in 0..n {
+        let cell = base.saturating_add(stride.saturating_mul(i as u128)).min(fam.max());
+        let jitter = frac(stride, ch.raw(), 34); // up to a quarter of the cell
+        let lo = cell.saturating_add(jitter).min(fam.max());
+        let style = (i % 16) as u8;
+        let w = ch.raw();
+        let item = match w % 8 {
+            0 => Item { kind: Kind::Single, fam, a: lo, b: lo, style },
+            // spans 1.5 .. 3.5 cells (merges with its neighbours, crosses every bucket boundary in between)
+            1 if i + 4 < n => {
+                let hi = lo.saturating_add(stride).saturating_add(frac(stride, w, 31)).min(fam.max());
+                Item { kind: Kind::Range, fam, a: lo, b: hi, style }
+            }
+            2 => {
+                // an aligned block inside the cell
+                let bits = fam.bits();
+                let host = (127 - (stride / 2).leading_zeros()).min(bits);
+                let len = bits - host.min(bits);
+                let a = lo & prefix_mask(fam, len);
+                if fam == Fam::Int || a < cell { Item { kind: Kind::Single, fam, a: lo, b: lo, style } } else { Item { kind: Kind::Cidr, fam, a, b: len as u128, style } }
+            }
+            3 if !is_int && i % 7 == 0 => {
+                // an item of the other family in between
+                let a = if other == Fam::V6 { 0xffff_0000_0000 | (lo & 0xffff_ffff) } else { lo & 0xffff_ffff };
+                Item { kind: Kind::Single, fam: other, a, b: a, style }
+            }
+            _ => {
+                let hi = lo.saturating_add(frac(stride, w, 33)).min(fam.max()); // up to half a cell
+                Item { kind: Kind::Range, fam, a: lo, b: hi, style }
+            }
+        };
+        items.push(item);
+    }
+    // the list is written in a drawn order (sorted, reversed, interleaved)
+    match ch.draw(3) {
+        0 => {}
+        1 => items.reverse(),
+        _ => {
+            let (a, b): (Vec<_>, Vec<_>) = items.iter().enumerate().partition(|(i, _)| i % 2 == 0);
+            items = a.into_iter().chain(b).map(|(_, it)| *it).collect();
+        }
+    }
+    let mut probes: BTreeSet<Pt> = BTreeSet::new();
+    for it in &items {
+        let (lo, hi) = it.bounds();
+        for b in [lo, hi] {
+            for v in [b.checked_sub(1), Some(b), b.checked_add(1).filter(|x| *x <= it.fam.max())].into_iter().flatten() {
+                probes.insert(Pt { fam: it.fam, v });
+            }
+        }
+        // interior points, a quarter of the item apart (they fall into other cells / buckets for wide items)
+        if hi - lo >= 4 {
+            for k in 1..4u128 {
+                probes.insert(Pt { fam: it.fam, v: lo + (hi - lo) / 4 * k });
+            }
+        }
+        if it.fam == Fam::V4 {
+            probes.insert(Pt::v6(0xffff_0000_0000 | lo));
+        }
+    }
+    // gaps: the middle of every cell boundary region
+    for i in 0..n {
+        let v = base.saturating_add(stride.saturating_mul(i as u128)).saturating_add(stride - 1);
+        if v <= fam.max() {
+            probes.insert(Pt { fam, v });
+        }
+    }
+    let probes: Vec<Pt> = probes.into_iter().collect();
+    st.class(&format!("grid:{}-items", if n < 32 { "15..31" } else if n < 64 { "32..63" } else { "64..200" }));
+    let sep = ch.weighted(&[6, 1, 1, 1, 1]);
+    check_ranges(is_int, &items, &probes, sep, false, ch.chance(1, 6), st)
+}
+
 fn ranges_case(is_int: bool, ch: &mut Choices<'_>, st: &mut Stats) -> CaseResult {
+    if ch.chance(1, 6) {
+        return grid_case(is_int, ch, st);
+    }
     let n = list_len(ch);
     // 0: v4 only, 1: v6 only, 2: mixed
     let fam_mode = if is_int { 0 } else { ch.weighted(&[3, 2, 5]) };
@@ -809,6 +909,19 @@ fn bytes_case(ch: &mut Choices<'_>, st: &mut Stats) -> CaseResult {
         let mut v = it.clone();
         v.push(*ch.pick(&BYTE_ALPHA));
         probes.insert(v);
+        // the same text with NUL / 0xff padding added or stripped (fixed-width packing loses the length)
+        for pad in [0x00u8, 0xff, b' '] {
+            let mut v = it.clone();
+            v.push(pad);
+            probes.insert(v.clone());
+            v.push(pad);
+            probes.insert(v);
+            let mut v = vec![pad];
+            v.extend_from_slice(it);
+            probes.insert(v);
+            let stripped: Vec<u8> = { let mut t = it.clone(); while t.last() == Some(&pad) { t.pop(); } t };
+            probes.insert(stripped);
+        }
         if !it.is_empty() {
             probes.insert(it[..it.len() - 1].to_vec());
             probes.insert(it[1..].to_vec());
